@@ -1,5 +1,8 @@
 use ahash::RandomState;
 use crossbeam_skiplist::SkipMap;
+#[cfg(feoxdb_verif)]
+use crate::verif::locks::RwLock;
+#[cfg(not(feoxdb_verif))]
 use parking_lot::RwLock;
 use scc::HashMap;
 use std::fs::File;
